@@ -2,11 +2,13 @@ import Driver.Util
 import Clemens.Model.See
 import Clemens.Model.TT
 import Clemens.Model.Order
+import Clemens.Model.Uci
 import Clemens.Model.UciParse
 import Clemens.Model.EvalCache
 import Clemens.Spec.FideSee
 import Clemens.Spec.Mirror
 import Clemens.Model.Uci
+import Clemens.Gen.Src
 /- evaluation, SEE, TT, ordering, time and parser operations of the line protocol -/
 namespace Driver
 open Clemens
@@ -105,9 +107,9 @@ def opOrder (args : List String) : String :=
 def opTime (args : List String) : String :=
   match args with
   | [side, plys, wt, bt, wi, bi, mtg, mt] =>
-    let sp : SearchParams := { wtime := parseInt wt, btime := parseInt bt, winc := parseInt wi, binc := parseInt bi,
-                               movesToGo := parseInt mtg, moveTime := parseInt mt }
-    s!"m.budget={calculateTime (side.toNat?.getD 0) (parseInt plys) sp}"
+    -- the definition regenerated from the Go source text (tools/go2lean) is what is compared with the Go function
+    let sp : Src.search.SearchParameter := ⟨parseInt wt, parseInt bt, parseInt wi, parseInt bi, parseInt mtg, 0#8, parseInt mt, false⟩
+    s!"m.budget={Src.search.calculateTime (BitVec.ofNat 8 (side.toNat?.getD 0)) (parseInt plys) sp}"
   | _ => "bad-op"
 
 def spStr (sp : SearchParams) : String :=
@@ -223,7 +225,9 @@ def opGoTime (args : List String) : String :=
   match args with
   | side :: plys :: _ :: _ :: toks =>
     match parseGo atoiFull (toks.map unhexBytes) with
-    | some (sp, _) => s!"m.budget={calculateTime (side.toNat?.getD 0) (parseInt plys) sp}"
+    | some (sp, _) =>
+      let ssp : Src.search.SearchParameter := ⟨sp.wtime, sp.btime, sp.winc, sp.binc, sp.movesToGo, BitVec.ofNat 8 sp.depth, sp.moveTime, sp.infinite⟩
+      s!"m.budget={Src.search.calculateTime (BitVec.ofNat 8 (side.toNat?.getD 0)) (parseInt plys) ssp}"
     | none => "m.res=panic"
   | _ => "bad-op"
 end Driver
